@@ -100,8 +100,8 @@ PROPS.update({
     "C07": {"level": "exploration",
             "technique": "runtime monitor with reference model: every saved row of set-speed and speed-limited runs vs force definitions evaluated statelessly (no cached indices) at the position/speed of the previous row; coefficients read from the serialized resistance model and re-derived from the rail vehicles",
             "level_text": "Each force term, weight, front elevation and front/rear grade of every saved step is recomputed from definitions at front and rear positions; held on all observed steps.",
-            "level_note": TRAIN_NOTE + " Backward evaluation during braking-curve construction is exercised indirectly (speed-limited runs depend on it and C03's oracle watches the resulting curves); it is not compared call by call.",
-            "floors": {"quick": {"distinct_nontrivial": 100, "obs.rows": 100000, "obs.rows_front_rear_in_different_grade_pieces": 20000},
+            "level_note": TRAIN_NOTE + " Backward evaluation is driven on clones exactly as BrakingPoints::recalc does (Dir::Unk at the path end, then decreasing offsets with Dir::Bwd) and compared call by call.",
+            "floors": {"quick": {"distinct_nontrivial": 100, "obs.rows": 100000, "obs.rows_front_rear_in_different_grade_pieces": 20000, "obs.backward_eval_calls": 20000},
                        "thorough": {"distinct_nontrivial": 5000, "obs.rows": 5000000}}},
     "C11": {"level": "exploration",
             "technique": "runtime monitor: row-aligned comparison of train.history, loco_con.history and every loco history plus final totals and (annualised) getters",
@@ -119,13 +119,13 @@ PROPS.update({
             "technique": "runtime monitor: SetSpeedTrainSim history vs its SpeedTrace (bitwise time/speed), inertia/resistance power identities, clip values checked against limits published in the consist history, shadow energy sum with trace dt; negative-speed traces must be rejected",
             "level_text": "Every row of generated set-speed runs (irregular stamps, saturating and non-saturating accelerations) is checked; 15 % of traces carry a negative speed at a random index and must end with Err; held on all observed runs.",
             "level_note": TRAIN_NOTE + " The rate-limited clip bound is accepted with either the previous or the current step size (the code uses the previous one).",
-            "floors": {"quick": {"distinct_nontrivial": 100, "obs.rows": 100000, "obs.clipped_steps": 5000, "obs.unclipped_steps": 20000, "obs.negative_speed_traces": 40},
+            "floors": {"quick": {"distinct_nontrivial": 100, "obs.rows": 100000, "obs.clipped_steps": 5000, "obs.unclipped_steps": 20000, "obs.negative_speed_traces": 40, "obs.rolling_start_on_default_initial_state": 100},
                        "thorough": {"distinct_nontrivial": 5000, "obs.rows": 5000000}}},
     "C19": {"level": "exploration",
             "technique": "runtime monitor: generic walker over the object tree collecting (len, i column, state.i, save_interval) of every history after runs of all four simulation kinds, all intervals, runs ending with an error",
             "level_text": "After each generated run the whole tree of histories is checked for equal lengths, same step per row, equal counters, the expected row count and interval propagation; held on all observed runs.",
             "level_note": TRAIN_NOTE,
-            "floors": {"quick": {"distinct_nontrivial": 50, "obs.trees_checked": 1000, "obs.histories_checked": 10000, "obs.loco_sim_ended_with_err": 50, "obs.consist_sim_ended_with_err": 50},
+            "floors": {"quick": {"distinct_nontrivial": 50, "obs.trees_checked": 1000, "obs.histories_checked": 10000, "obs.loco_sim_ended_with_err": 50, "obs.consist_sim_ended_with_err": 50, "obs.hybrid_loco_sims": 100},
                        "thorough": {"distinct_nontrivial": 2000, "obs.trees_checked": 40000}}},
 })
 
